@@ -516,6 +516,7 @@ type minInst struct {
 	stepKnob   int  // StepSizer of GradientDescent / CG (0 = nil)
 	lsTies     bool // ListSearch: an even objective and sign-flipped rows, so that several rows attain the minimum
 	nmVerts    bool // NelderMead: the initial simplex (initX first) and its values are supplied
+	nmFar      bool // ... and the simplex lies away from initX ("it is used and initLoc is ignored")
 	cmaStop    int  // CmaEsChol.StopLogDet: 0 NaN (criterion off), 1 default, 2 +Inf (converged after the first generation)
 	costly     bool
 	fcAbs      float64 // FunctionConverge parameters (convKind 2)
@@ -797,6 +798,7 @@ func drawMinimize(t *simrt.Tape) *minInst {
 	}
 	if in.method == mNelderMead {
 		in.nmVerts = t.Choose(simrt.KWorkload, 4) == 3
+		in.nmFar = in.nmVerts && in.obj.bad == 0 && t.Choose(simrt.KWorkload, 3) == 2
 	}
 	in.knob = t.Choose(simrt.KWorkload, 4)
 	if (in.method == mLBFGS || in.method == mNelderMead) && in.ls == 0 && in.knob == 0 && t.Choose(simrt.KWorkload, 3) == 2 {
@@ -833,6 +835,9 @@ func (in *minInst) describe(m map[string]interface{}) {
 	m["gradient_threshold"] = fmt.Sprint(in.set.GradientThreshold)
 	m["converger"] = []string{"default", "NeverTerminate", fmt.Sprintf("FunctionConverge{Absolute:%v Relative:%v Iterations:%d}", in.fcAbs, in.fcRel, in.fcIter)}[in.convKind]
 	m["init_values"] = []string{"none", "F", "F+Grad", "F+Grad+Hess"}[in.initVals]
+	if in.nmFar {
+		m["neldermead_simplex_away_from_initX"] = true
+	}
 	if in.nmVerts {
 		m["neldermead_initial_simplex_supplied"] = true
 	}
@@ -952,6 +957,11 @@ func (in *minInst) build() *minRun {
 			// 1/2 or -1/4 along every axis, with their exact values
 			for i := 0; i <= in.dim; i++ {
 				v := append([]float64(nil), in.initX...)
+				if in.nmFar {
+					for j := range v {
+						v[j] += 6
+					}
+				}
 				if i > 0 {
 					v[i-1] += []float64{0.5, -0.25}[(i+int(in.seed))%2]
 				}
@@ -1644,6 +1654,11 @@ func checkC19(rc *RunCtx, in *minInst, r *minRun, nTasks int) *Violation {
 							class = "local/NelderMead/nan-vertex-in-initial-simplex"
 						}
 					}
+				}
+				if in.method == mNelderMead && in.nmFar && !math.IsNaN(res.F) {
+					// known finding 56: the initial point is announced and then
+					// forgotten when a simplex that does not hold it is supplied
+					class += "/NelderMead/user-simplex-without-the-initial-point"
 				}
 				return &Violation{prop, "minimize/coherence-no-worse-than-start/" + class, fmt.Sprintf("%s: Result.F=%v is worse than the initial point's %v", name, res.F, f0)}
 			}
